@@ -532,7 +532,9 @@ var scalePublicOnly bool
 
 func scaleConfig(v reflect.Value, k int) {
 	if scalePublicOnly {
+		swapMa = true
 		rescaleExported(v, k, 0)
+		swapMa = false
 		return
 	}
 	scalePeriods(v, k, 0)
